@@ -128,7 +128,59 @@ theorem C09_disease_row_ignored (rest : List Char) :
     startsWith pOmim [] = false ∧ startsWith pOrpha [] = false := by
   simp [pOmim, pOrpha, startsWith]
 
+/-! ## hp.obo blocks -/
+
+/-- a rendered `[Term]` stanza — id, name (may contain `": "` and non-ASCII text), other tags,
+several `is_a: HP:… ! label` lines, `is_obsolete: true`, `replaced_by: HP:…`, more other tags —
+is read back as exactly that term with exactly those parents -/
+theorem C09_stanza (id : Nat) (name : List Char) (obs : Bool) (repl : Option Nat)
+    (parents : List (Nat × List Char)) (extras1 extras2 : List (List Char × List Char))
+    (hid : id < 4294967296) (hrepl : ∀ r, repl = some r → r < 4294967296)
+    (hpar : ∀ p ∈ parents, p.1 < 4294967296) (hok : StanzaOk name parents extras1 extras2) :
+    parseBlock (renderStanza id name obs repl parents extras1 extras2) =
+      .ok (.term { id := id, name := name, obsolete := obs, replacement := repl } (parents.map (·.1))) :=
+  parseBlock_stanza id name obs repl parents extras1 extras2 hid hrepl hpar hok
+
+/-- a block that is neither a `[Term]` stanza nor the header contributes nothing … -/
+theorem C09_other_block (b : List Char) (h1 : stripPrefix termPrefix b = none)
+    (h2 : startsWith formatPrefix b = false) : parseBlock b = .ok .other :=
+  parseBlock_other b h1 h2
+
+/-- … in particular `[Typedef]` and `[Instance]` stanzas with any content, and the empty block -/
+theorem C09_typedef_ignored (rest : List Char) :
+    parseBlock ("[Typedef]".toList ++ rest) = .ok .other ∧
+    parseBlock ("[Instance]".toList ++ rest) = .ok .other ∧ parseBlock [] = .ok .other := by
+  refine ⟨parseBlock_other _ ?_ ?_, parseBlock_other _ ?_ ?_, parseBlock_other _ ?_ ?_⟩ <;>
+    simp [termPrefix, formatPrefix, stripPrefix, startsWith]
+
+/-- the header block yields the release version of its `data-version: hp/releases/YYYY-MM-DD`
+line, wherever in the block that line stands -/
+theorem C09_version (pre post : List (List Char)) (y1 y2 y3 y4 m1 m2 d1 d2 : Nat)
+    (hy1 : y1 < 10) (hy2 : y2 < 10) (hy3 : y3 < 10) (hy4 : y4 < 10) (hm1 : m1 < 10) (hm2 : m2 < 10)
+    (hd1 : d1 < 10) (hd2 : d2 < 10)
+    (hpre : ∀ l ∈ pre, stripPrefix versionPrefix l = none) (hok : ∀ l ∈ pre ++ post, LineOk l) :
+    parseBlock (joinWith '\n' (headerLines pre post y1 y2 y3 y4 m1 m2 d1 d2)) =
+      .ok (.header (1000 * y1 + 100 * y2 + 10 * y3 + y4, 10 * m1 + m2, 10 * d1 + d2)) :=
+  parseBlock_header pre post y1 y2 y3 y4 m1 m2 d1 d2 hy1 hy2 hy3 hy4 hm1 hm2 hd1 hd2 hpre hok
+
 /-! ## non-vacuity -/
+set_option maxRecDepth 8192 in
+example : renderStanza 218 "b: é".toList true (some 1) [(217, "X".toList), (1, "All".toList)]
+      [("def".toList, "\"H: m\" [P:1]".toList)] [("xref".toList, "A:B".toList)] =
+    ("[Term]\nid: HP:0000218\nname: b: é\ndef: \"H: m\" [P:1]\n" ++
+     "is_a: HP:0000217 ! X\nis_a: HP:0000001 ! All\nis_obsolete: true\nreplaced_by: HP:0000001\nxref: A:B").toList := by
+  decide
+example : StanzaOk "High palate: é".toList [(217, "Xerostomia".toList)]
+    [("def".toList, "\"Height: more\" [PMID:1]".toList)] [("xref".toList, "A:B".toList)] := by
+  refine ⟨by decide, by decide, ?_⟩
+  intro e he
+  simp at he
+  rcases he with rfl | rfl <;> exact ⟨⟨by decide, by decide, by decide, by decide, by decide, by decide⟩,
+    ⟨by decide, by decide, by decide⟩, by decide, by decide⟩
+example : parseBlock "[Term]\nid: HP:0000218\nname: b: c\nis_a: HP:0000217 ! X\nis_a: HP:0000001\n".toList
+    = .ok (.term { id := 218, name := "b: c".toList } [217]) := by decide
+example : joinWith '\n' (headerLines ["saved-by: x".toList] [] 2 0 2 2 1 0 0 5) =
+    "format-version: 1.2\nsaved-by: x\ndata-version: hp/releases/2022-10-05".toList := by decide
 example : parseGeneRow false "10\tNAT2\tHP:0000007\tAutosomal recessive inheritance\t-\tOMIM:243400".toList
     = .ok (10, "NAT2".toList, 7) := by decide
 example : renderG2P 10 "NAT2".toList 7 "\tfoo\tbar".toList = "10\tNAT2\tHP:0000007\tfoo\tbar".toList := by decide
